@@ -215,21 +215,72 @@ func c10r2(c *an.Ctx) {
 		}
 	})
 	if c.Check(recvErr != nil, "(*Mux).HandleRPC | calls the registered receiver", c.P.Pos(mh.Pos()), "", "cannot find the receiver call") {
+		// path-sensitive: what each path knows about the handler's error (tests anywhere, also in helpers)
+		nt := nilTrack{}
+		flow := &an.Flow{Fn: mh, Inline: an.InlineSamePackage(mh), Init: []string{""}, OnReturn: nt.onReturn,
+			Step: func(st string, in ssa.Instruction) []string {
+				if x, ok := in.(*ssa.Store); ok {
+					if s2 := nt.store(st, x); s2 != st {
+						return []string{s2}
+					}
+				}
+				return nil
+			},
+			Branch: func(st string, br *ssa.If, idx int) (string, bool) {
+				s2, _, feasible := nt.branch(st, br, idx)
+				return s2, feasible
+			},
+		}
+		res := flow.Run()
+		recvCall := recvErr.(*ssa.Extract).Tuple.(*ssa.Call)
+		// (a) a response (or a clean half-close) is sent only on paths that know the handler returned no error
+		nSend := 0
+		an.Instrs(mh, func(in ssa.Instruction) {
+			call, ok := in.(*ssa.Call)
+			if !ok || !call.Common().IsInvoke() || !an.CanReach(recvCall, in) {
+				return
+			}
+			switch call.Common().Method.Name() {
+			case "MsgSend", "CloseSend":
+			default:
+				return
+			}
+			nSend++
+			okAll := true
+			for _, sf := range res.BeforeF(in) {
+				known, nonNil := nt.statusF(sf, recvErr, in)
+				if !known || nonNil {
+					okAll = false
+				}
+			}
+			c.Check(okAll, "(*Mux).HandleRPC | "+call.Common().Method.Name()+" only if the handler returned no error", c.At(in), "",
+				"the response is sent (or the stream half-closed cleanly) on a path where the handler's error may be non-nil: the error, its message and its code never reach the caller")
+		})
+		c.Floor("response emissions after the handler in Mux.HandleRPC", 1, nSend)
+		// (b) where the handler's error is known non-nil it is what is returned, through chain-preserving wrappers
 		n := 0
-		for _, ret := range an.Returns(mh) {
+		for _, rc := range an.ReturnCases(mh) {
+			ret := rc.Ret
+			if !an.CanReach(recvCall, ret) || !res.Reachable(ret.Block()) {
+				continue
+			}
+			errPath := false
+			for _, sf := range res.BeforeF(ret) {
+				if known, nonNil := nt.statusF(sf, recvErr, ret); known && nonNil {
+					errPath = true
+				}
+			}
 			guarded := false
-			for _, g := range an.GuardsOf(ret.Block()) {
+			for _, g := range rc.Guards {
 				if x, trueNonNil, isNil := nilTestOf(g.Cond); isNil && an.Resolve(x) == recvErr && g.True == trueNonNil {
 					guarded = true
 				}
 			}
-			if !guarded {
+			if !errPath || !guarded {
 				continue
 			}
 			n++
-			for _, v := range returnedValues(ret, 0) {
-				c.Check(chainPreserves(v, recvErr, 0), "(*Mux).HandleRPC | handler error returned through chain-preserving wrappers", c.At(ret), "", "the handler's error is flattened or replaced before it is returned ("+describeRet(v)+"): its code (found by unwrapping) or message is lost")
-			}
+			c.Check(chainPreserves(rc.Vals[0], recvErr, 0), "(*Mux).HandleRPC | handler error returned through chain-preserving wrappers", c.At(ret), "", "the handler's error is flattened or replaced before it is returned ("+describeRet(rc.Vals[0])+"): its code (found by unwrapping) or message is lost")
 		}
 		c.Floor("receiver-error returns in Mux.HandleRPC", 1, n)
 	}
